@@ -128,6 +128,9 @@ type World struct {
 	evc        map[int]*evCounter
 	evSubs     []event.Subscription
 	obsSuffix  string
+	lastAddr    string
+	roots       map[string]int
+	extraStores []iface.Store
 	heldHooks   map[string]chan struct{}
 	hookWaiting map[string]int
 	lastForged string
@@ -360,6 +363,9 @@ func (w *World) quiesce(s iface.Store) bool {
 func hx(b []byte) string {
 	if len(b) == 0 {
 		return "-"
+	}
+	if len(b) > 256 {
+		return fmt.Sprintf("#%d", len(b))
 	}
 	return hex.EncodeToString(b)
 }
@@ -634,6 +640,21 @@ func (w *World) resetScenario(id string) {
 	w.byRepl = map[interface{}]interface{}{}
 	w.hookFn = nil
 	w.mu.Unlock()
+	for _, es := range w.extraStores {
+		_ = es.Close()
+		for p := range w.peers {
+			w.net.closeTopic(p, es.Address().String())
+		}
+	}
+	w.extraStores = nil
+	w.roots = nil
+	w.lastAddr = ""
+	// every scenario starts from empty local caches (the keystores, i.e. the identities, are kept)
+	for _, p := range w.peers {
+		p.cache.mu.Lock()
+		p.cache.m = map[string]*recDS{}
+		p.cache.mu.Unlock()
+	}
 	w.gate = nil
 	w.mu.Lock()
 	for n, ch := range w.heldHooks {
